@@ -47,6 +47,16 @@ type fields struct {
 	bk     string // the maximal cliques as sent, in order (strict part only)
 	lg     string // the edge array of LineGraphDense (strict part only; "-" when not computed)
 	gr, pr []string
+	ds     string // ChromaticNumber's value and exact colouring (strict part only)
+	dk     string // IsKColorable's answers and exact witnesses for k = 0..n+1 (strict part only)
+	dci    string // ChromaticIndex's value and exact edge array (strict part only; "-" when not computed)
+}
+
+func showCol(c []int) string {
+	if c == nil {
+		return "nil"
+	}
+	return gx.JoinInts(c, ".")
 }
 
 func (f fields) line(level int) string {
@@ -176,6 +186,8 @@ func observe(c gx.Case, v gx.Variant, viol *[]hx.OracleViolation) fields {
 	// chromatic number with witness
 	chi, col := graph.ChromaticNumber(g)
 	f.chi = chi
+	f.ds = fmt.Sprintf("%d:%s", chi, showCol(col))
+	var dk []string
 	if !isProper(h, col) {
 		fail("ChromaticNumber", "colouring %v is not proper", col)
 	} else {
@@ -192,6 +204,11 @@ func observe(c gx.Case, v gx.Variant, viol *[]hx.OracleViolation) fields {
 	}
 	for k := 0; k <= n+1; k++ {
 		ok, kcol := graph.IsKColorable(g, k)
+		if ok {
+			dk = append(dk, "1:"+showCol(kcol))
+		} else {
+			dk = append(dk, "0:"+showCol(kcol))
+		}
 		if ok {
 			f.kc += "1"
 			if !isProper(h, kcol) {
@@ -210,8 +227,11 @@ func observe(c gx.Case, v gx.Variant, viol *[]hx.OracleViolation) fields {
 		}
 	}
 
+	f.dk = strings.Join(dk, "/")
+
 	// chromatic index with witness
 	f.lg = "-"
+	f.dci = "-"
 	if f.m <= maxEdgesChromaticIndex {
 		var sb strings.Builder
 		for _, b := range graph.LineGraphDense(g).Edges {
@@ -220,6 +240,15 @@ func observe(c gx.Case, v gx.Variant, viol *[]hx.OracleViolation) fields {
 		f.lg = sb.String()
 		ci, ce := graph.ChromaticIndex(g)
 		f.ci = ci
+		if ce == nil {
+			f.dci = fmt.Sprintf("%d:nil", ci)
+		} else {
+			cei := make([]int, len(ce))
+			for i, b := range ce {
+				cei[i] = int(b)
+			}
+			f.dci = fmt.Sprintf("%d:%s", ci, gx.JoinInts(cei, "."))
+		}
 		if len(ce) != n*(n-1)/2 {
 			fail("ChromaticIndex", "edge array has length %d", len(ce))
 		} else {
@@ -419,7 +448,7 @@ func exec(line string) hx.Result {
 		}
 		b = append(b, fmt.Sprintf("class=%d", 1+ref.ci-maxDeg))
 	}
-	return hx.Result{Obs: first.line(c.Level) + " ## order=" + first.ord + " bk=" + first.bk + " lg=" + first.lg, Nontrivial: nontrivial, Buckets: b, Viol: viol}
+	return hx.Result{Obs: first.line(c.Level) + " ## order=" + first.ord + " bk=" + first.bk + " lg=" + first.lg + " ds=" + first.ds + " dk=" + first.dk + " dci=" + first.dci, Nontrivial: nontrivial, Buckets: b, Viol: viol}
 }
 
 func main() {
